@@ -32,7 +32,7 @@ META = {
             "P is never negative when R is an absolute value, and I is defined for positive parameters (quantifier-free nonlinear real arithmetic; power laws on positive bases applied "
             "during translation, A-pow; refuted rows are replayed on the real sympy objects).",
     "note": "Bounded by complexity and bases listed in the evidence; numeric oracle independent of sympy simplification. A-sympy for parsing only.",
-    "technique": "contract-based deductive verification of the index bookkeeping (AST->VC->SMT) + bounded stand-in of the library contract on the real code",
+    "technique": "contract-based deductive verification of the index bookkeeping, merge application, chain assembly and un-merge regions (AST->VC->SMT) + row contracts on the literal substitution tables of sympy_simplify (AST->QF_NRA, replay on the real sympy objects) + bounded stand-in of the library contract on the real code",
 }
 CHECKER = "./bin/check C03"
 
